@@ -177,30 +177,20 @@ Lemma lex_string_kind : forall r, (0 < fst (lex_string r) < 124)%N.
 Proof. intro r; unfold lex_string; split_ifs; simpl; kind_const; lia. Qed.
 
 Lemma lex_first_kind : forall st b r,
-  (fst (lex_first st b r) < 124)%N /\ (fst (lex_first st b r) = K_Eof -> b = 0%N).
+  (fst (lex_first st b r) < 124)%N /\ fst (lex_first st b r) <> K_Eof.
 Proof.
   intros st b r. unfold lex_first.
-  destruct (nbeq b 0) eqn:Z.
-  - apply nbeq_eq in Z. simpl. kind_const. split; [lia|auto].
-  - pose proof (lex_number_kind true r) as N1. pose proof (lex_number_kind false r) as N2.
-    pose proof (lex_hyphen_kind r) as Hh. pose proof (lex_string_kind r) as Hs.
-    pose proof (lex_ident_kind st b r) as Hi.
-    split_ifs; cbn [fst]; kind_const; try (split; [lia | intro Q; exfalso; lia]);
-      try (split; [lia | intro Q; exfalso; discriminate]).
+  pose proof (lex_number_kind true r) as N1. pose proof (lex_number_kind false r) as N2.
+  pose proof (lex_hyphen_kind r) as Hh. pose proof (lex_string_kind r) as Hs.
+  pose proof (lex_ident_kind st b r) as Hi.
+  split_ifs; cbn [fst]; kind_const; try (split; [lia | intro Q; lia]);
+    try (split; [lia | intro Q; discriminate]).
 Qed.
 
-Definition no_nul (t : list byte) : Prop := Forall (fun b => b <> 0%N) t.
-
-Lemma no_nul_skipn : forall n t, no_nul t -> no_nul (skipn n t).
-Proof.
-  induction n as [|n IH]; intros t H; [exact H|].
-  destruct t as [|b r]; [exact H|]. simpl. apply IH. inversion H; assumption.
-Qed.
-
+(* the lexer never yields Eof inside the input (only past its end) *)
 Lemma lex_all_kinds : forall fuel st rest ls,
   lex_all fuel st rest = Some ls ->
-  Forall (fun l => lexer_kind (lk l)) ls
-  /\ (no_nul rest -> Forall (fun l => lk l <> K_Eof) ls).
+  Forall (fun l => lexer_kind (lk l)) ls /\ Forall (fun l => lk l <> K_Eof) ls.
 Proof.
   induction fuel as [|f IH]; intros st rest ls H.
   - destruct rest; simpl in H; [inversion H; subst; split; constructor | discriminate].
@@ -212,11 +202,7 @@ Proof.
     destruct (IH _ _ _ Et) as [K1 K2].
     unfold next_token in E. pose proof (lex_first_kind st b r) as [F1 F2].
     destruct (lex_first st b r) as [k e]. inversion E; subst; clear E. simpl in *.
-    split.
-    + constructor; [exact F1 | exact K1].
-    + intro NN. constructor.
-      * simpl. intro Q. apply F2 in Q. inversion NN; subst. congruence.
-      * apply K2. apply (no_nul_skipn (S e) (b :: r)). exact NN.
+    split; constructor; assumption.
 Qed.
 
 (* ---- character boundaries ---------------------------------------------- *)
